@@ -989,6 +989,8 @@ def str_method(it, s, name, args, kwargs, line=None):
         return SAny(PV.PBytes(py_encode(st)))
     if name == 'format':
         return opaque_format(it, s, args)
+    if not hasattr('', name):
+        it.raise_py('AttributeError', "'str' object has no attribute %r" % name, line)
     raise Unsupported('str.%s' % name)
 
 
